@@ -59,13 +59,16 @@ std::string op_grid(std::string const &_op, line_t const &L)
     auto h{mk_grid<T>(L.args[1], L.par[2], L.par[3])};
     mark(h);
     g_log.clear();
-    grid2<T> const r{with_cat<true>(
+    grid2<pair2<T>> const r{with_cat<true>(
         L.cat(0),
         g,
         [&](auto &&x)
-        { return with_cat<true>(L.cat(1), h, [&](auto &&y) { return fcppt::container::grid::apply(first_of_two{}, FWD(x), FWD(y)); }); })};
+        { return with_cat<true>(L.cat(1), h, [&](auto &&y) { return fcppt::container::grid::apply(both{}, FWD(x), FWD(y)); }); })};
     event_log const log{g_log};
-    return finish("-", slots(r), {slots(g), slots(h)}, log);
+    slots_t sr;
+    for (auto const &p : r)
+      add_pair(sr, p);
+    return finish("-", sr.str(), {slots(g), slots(h)}, log);
   }
   if (_op == "gridresize")
   {
